@@ -2016,8 +2016,13 @@ func (pid *PID) dispatchOne(received *ReceiveContext, now time.Time) {
 	case *commands.Panicking:
 		pid.handlePanicking(received.Sender(), msg)
 	case *PausePassivation:
+		// remember that the pause was requested by the user: a suspension that
+		// happens meanwhile reuses the same pause machinery and its reinstate
+		// must not drop the user's request
+		pid.setState(passivationUserPausedState, true)
 		pid.pausePassivation()
 	case *ResumePassivation:
+		pid.setState(passivationUserPausedState, false)
 		pid.resumePassivation()
 	case *commands.AsyncRequest:
 		pid.handleAsyncRequest(received, msg, now)
@@ -2459,6 +2464,7 @@ func (pid *PID) reset() {
 		pid.dependencies.Reset()
 	}
 	pid.setState(passivationPausedState, false)
+	pid.setState(passivationUserPausedState, false)
 	pid.setState(passivatingState, false)
 	pid.setState(passivationSkipNextState, false)
 	pid.reentrancy.Load().reset()
@@ -3216,8 +3222,11 @@ func (pid *PID) doReinstate() {
 	// doesn't immediately fire before the skip guard can cancel the in-flight attempt.
 	pid.markActivity(time.Now())
 
-	// resume passivation loop
-	pid.resumePassivation()
+	// resume passivation loop, unless the user paused it with PausePassivation
+	// and has not sent ResumePassivation yet
+	if !pid.isStateSet(passivationUserPausedState) {
+		pid.resumePassivation()
+	}
 
 	// publish an event to the events stream
 	pid.eventsStream.Publish(eventsTopic, NewActorReinstated(pid.Path()))
